@@ -40,13 +40,16 @@ class State:
         self.fired = []
         self.on_step = None  # callable(side, label), called BEFORE the step executes
         self.in_set = False
+        self.dirty = True
+        self.dirty_before = True
 
 
 S = State()
 _INSTALLED = {}
 
 
-def step(label, write=False):
+def step(label, write=False, mut=False):
+    """called BEFORE the real operation; `write`: may fail with ENOSPC; `write or mut`: changes what is on disk"""
     if not S.active:
         return
     S.count += 1
@@ -55,6 +58,9 @@ def step(label, write=False):
         S.labels.append(f'{side}:{label}')
     if S.on_step is not None:
         S.on_step(side, label)
+    S.dirty_before = S.dirty
+    if write or mut:
+        S.dirty = True  # seen by the NEXT step: the disk may differ from the previous crash image
     if S.crash_at is not None and S.count == S.crash_at:
         S.on_crash(side, label)
     if write and S.fail is not None and S.fail(label):
@@ -76,11 +82,15 @@ class FileProxy:
 
     def write(self, data):
         step(self._tag + '.write', write=True)
+        if len(data) < 2048:
+            # stays in the user-space buffer of the file object until flush/close (both numbered steps): the disk
+            # does not change now.  Larger writes may be flushed by the buffer and count as disk-changing.
+            S.dirty = S.dirty_before
         return self._f.write(data)
 
     def close(self):
         if not self._f.closed:
-            step(self._tag + '.close')
+            step(self._tag + '.close', mut=True)
         return self._f.close()
 
     def __enter__(self):
@@ -149,19 +159,19 @@ class OsShim:
         return os.close(fd)
 
     def chmod(self, path, mode, **k):
-        step(self._p + 'chmod:' + _tag_of(path))
+        step(self._p + 'chmod:' + _tag_of(path), mut=True)
         return os.chmod(path, mode, **k)
 
     def unlink(self, path, **k):
-        step(self._p + 'unlink:' + _tag_of(path))
+        step(self._p + 'unlink:' + _tag_of(path), mut=True)
         return os.unlink(path, **k)
 
     def remove(self, path, **k):
-        step(self._p + 'unlink:' + _tag_of(path))
+        step(self._p + 'unlink:' + _tag_of(path), mut=True)
         return os.remove(path, **k)
 
     def rename(self, src, dst, **k):
-        step(self._p + 'rename:' + _tag_of(src) + '->' + _tag_of(dst))
+        step(self._p + 'rename:' + _tag_of(src) + '->' + _tag_of(dst), mut=True)
         if self._exdev and S.exdev and _tag_of(src) == 'staged':
             raise OSError(errno.EXDEV, 'sim: Invalid cross-device link')
         return os.rename(src, dst, **k)
@@ -171,7 +181,7 @@ class OsShim:
         return os.sendfile(out_fd, in_fd, offset, count)
 
     def utime(self, *a, **k):
-        step(self._p + 'utime')
+        step(self._p + 'utime', mut=True)
         return os.utime(*a, **k)
 
 
